@@ -468,7 +468,7 @@ def p_rules(P, E):
                     raise Undecided("%s hook: expected the one stored-subscription cell, found %d" % (role, len(cells)))
                 for cnt in (0, 1, 2, 3):
                     for present in (False, True):
-                        sigma = {cells[0]: present, "in:serial": cnt}
+                        sigma = {cells[0]: present, "in:serial": cnt, "in:live": True}
                         for s_ in S.symbols():
                             sigma.setdefault(s_, 0)
                         outs = S.step(sigma, ALPHABET)
